@@ -2,6 +2,8 @@ import FrappyModel.Spec.C01
 import FrappyModel.Base.NumCompat
 import FrappyModel.Datatypes.Variants
 import FrappyModel.Datatypes.CompatUsers
+import FrappyModel.Datatypes.DatainfoWF
+import FrappyModel.Datatypes.CommandInfo
 /-
 C03 — Datatype descriptions, copies and compatibility verdicts are faithful.
 
@@ -493,6 +495,45 @@ def judgeDerived (d : Derived F) : List String :=
    | some j => if jsonEq d.datainfo j then [] else ["datainfo"]
    | none => if d.built then ["datainfo"] else []) ++
   (if d.probes.all (fun p => outcomeEq p.original p.derived) then [] else ["behaviour"])
+
+/-- a tree outside the quantifier (some scaled limit is not the grid value of its grid index): the description holds
+grid indices, so it cannot say where such a limit is, and the statement promises nothing about the behaviour of the
+derived type.  What is still judged: the derived type exists and its description is the identical datainfo — the
+description is a fixed point of the round trip for every tree (`rebuild_snaps`, `copy_snaps`). -/
+def judgeDescribed (d : Derived F) : List String :=
+  (if d.built then [] else ["built"]) ++
+  (match d.datainfo' with
+   | some j => if jsonEq d.datainfo j then [] else ["datainfo"]
+   | none => if d.built then ["datainfo"] else [])
+
+/-- the monitor of the rebuild / copy streams: the tree decides (in Lean) which clauses apply -/
+def judgeRebuilt (t : DInfo F) (d : Derived F) : List String :=
+  if t.exportableB then judgeDerived d else judgeDescribed d
+
+/-- what the harness observed of a rebuilt / copied command: it exists, the datainfo of both, and for the argument and
+the result of the derived command (`none` = it has none) probes through the original's and the derived one's;
+`shared` = kinds of the mutable objects reachable from both commands -/
+structure CmdDerived (F : Type) where
+  built : Bool
+  datainfo : JVal F
+  datainfo' : Option (JVal F)
+  argument : Option (List (Probe F))
+  result : Option (List (Probe F))
+  shared : List String
+
+/-- "an equivalent type" for a command: it exists, has the identical datainfo, an argument / a result exactly where the
+original has one, and (for trees in the quantifier) argument and result accept and reject the same values with equal
+results; a copy shares no mutable object -/
+def judgeCmdDerived (c : CmdInfo F) (d : CmdDerived F) : List String :=
+  let inQuantifier := (c.argument.map DInfo.exportableB).getD true && (c.result.map DInfo.exportableB).getD true
+  let same (ps : Option (List (Probe F))) : Bool := (ps.getD []).all (fun p => outcomeEq p.original p.derived)
+  (if d.built then [] else ["built"]) ++
+  (match d.datainfo' with
+   | some j => if jsonEq d.datainfo j then [] else ["datainfo"]
+   | none => if d.built then ["datainfo"] else []) ++
+  (if d.built && (c.argument.isSome != d.argument.isSome || c.result.isSome != d.result.isSome) then ["shape"] else []) ++
+  (if !inQuantifier || (same d.argument && same d.result) then [] else ["behaviour"]) ++
+  (if d.shared.isEmpty then [] else ["shared"])
 
 /-- what the harness observed around mutating a copy: kinds of the mutable objects reachable from both the
 original and the copy; datainfo and probe outcomes of the original before and after the mutation -/
